@@ -54,6 +54,17 @@ type tcase struct {
 	Orders [2]order `json:"orders"`
 	// Report marks a witness of the reporting oracle (replay runs that oracle too)
 	Report bool `json:"report,omitempty"`
+	// wire, when set, is what the aggregator is really built with (the values that came out of the
+	// configuration code under test); Percentiles / Disabled / Limit above then state what the
+	// configuration TEXT means and drive the reference only.
+	wire *wiring
+}
+
+// wiring is the aggregator configuration as some configuration path of gostatsd produced it.
+type wiring struct {
+	pcts     []float64
+	disabled gostatsd.TimerSubtypes
+	limit    uint32
 }
 
 func (cs *tcase) total() int {
@@ -271,7 +282,11 @@ func (cs *tcase) runWith(o order, names []string, tap func(*gostatsd.MetricMap))
 		}
 		return names[si]
 	}
-	agg := statsd.NewMetricAggregator(append([]float64(nil), cs.Percentiles...), 0, 0, 0, 0, subtypes(cs.Disabled), cs.Limit)
+	w := wiring{pcts: cs.Percentiles, disabled: subtypes(cs.Disabled), limit: cs.Limit}
+	if cs.wire != nil {
+		w = *cs.wire
+	}
+	agg := statsd.NewMetricAggregator(append([]float64(nil), w.pcts...), 0, 0, 0, 0, w.disabled, w.limit)
 	interval := time.Duration(cs.IntervalNS)
 	// a series goes through one complete flush cycle first when the order is "warm", and always when it
 	// receives nothing afterwards (idle persisted series); expiry 0 keeps it
@@ -541,22 +556,26 @@ func limitClass(l uint32) string {
 }
 
 // eval runs one case in both arrival orders and reports every difference, series by series.
-func (c *checker) eval(cs *tcase) {
+func (c *checker) eval(cs *tcase) { c.evalAs(cs, "", cs) }
+
+// evalAs is eval with a signature prefix and a witness of its own (the configuration phases replay the
+// configuration case, not only the workload).
+func (c *checker) evalAs(cs *tcase, prefix string, witness interface{}) {
 	refs := make([]*refTimer, len(cs.Series))
 	for si := range cs.Series {
 		refs[si] = reference(cs, &cs.Series[si])
 	}
 	for oi, o := range cs.Orders {
 		var obs map[string]observed
-		if c.r.Guard("flush-panic", cs, func() { obs, _ = cs.run(o) }) {
+		if c.r.Guard(prefix+"flush-panic", witness, func() { obs, _ = cs.run(o) }) {
 			continue
 		}
 		for si := range cs.Series {
 			se := &cs.Series[si]
 			rt := refs[si]
 			for _, d := range c.compare(cs, se, rt, obs[se.key()]) {
-				c.r.Violation(d[0], fmt.Sprintf("order %d (warm=%v, %d batches), series %d of %d under one name (key %q), n=%d variant=%s percentiles=%v limit=%d tag=%q interval=%v: %s",
-					oi, o.Warm, len(o.Chunks), si, len(cs.Series), se.key(), rt.n, cs.Variant, cs.Percentiles, cs.Limit, se.HistTag, time.Duration(cs.IntervalNS), d[1]), cs)
+				c.r.Violation(prefix+d[0], fmt.Sprintf("order %d (warm=%v, %d batches), series %d of %d under one name (key %q), n=%d variant=%s percentiles=%v limit=%d tag=%q interval=%v: %s",
+					oi, o.Warm, len(o.Chunks), si, len(cs.Series), se.key(), rt.n, cs.Variant, cs.Percentiles, cs.Limit, se.HistTag, time.Duration(cs.IntervalNS), d[1]), witness)
 			}
 			c.r.Event("series_flushes_compared", 1)
 		}
@@ -872,6 +891,22 @@ func TestCheck(t *testing.T) {
 	}
 
 	if p := r.ReplayPayload(); p != nil {
+		var ph struct {
+			Phase string `json:"phase"`
+		}
+		mon.ReplayCase(p, &ph)
+		if strings.HasPrefix(ph.Phase, "config-") || ph.Phase == "flusher" {
+			if ph.Phase == "flusher" {
+				if fc, ok := mon.ReplayCase(p, &fCase{}).(*fCase); ok && fc != nil {
+					c.runFlusher(fc)
+				}
+			} else if cc, ok := mon.ReplayCase(p, &cfgCase{}).(*cfgCase); ok && cc != nil {
+				c.replayConfig(t, cc)
+			}
+			r.Nontrivial("replay-a")
+			r.Nontrivial("replay-b")
+			return
+		}
 		cs, ok := mon.ReplayCase(p, &tcase{}).(*tcase)
 		if !ok || cs == nil {
 			t.Skip("no case in replay file")
@@ -883,6 +918,18 @@ func TestCheck(t *testing.T) {
 		r.Nontrivial("replay-a")
 		r.Nontrivial("replay-b")
 		return
+	}
+
+	// the cmd/gostatsd binary of the configuration phase is built while the other phases run
+	var binCh chan string
+	if s, n := r.Shard(); s == 1%n {
+		binCh = make(chan string, 1)
+		go func() { binCh <- buildBinary(t, r) }()
+		defer func() {
+			if binCh != nil {
+				<-binCh
+			}
+		}()
 	}
 
 	rng := r.Rand("c08")
@@ -897,6 +944,25 @@ func TestCheck(t *testing.T) {
 		if r.WantSample() && len(cs.Series) >= 2 && cs.total() >= 3 && cs.total() <= 8 && len(cs.Percentiles) >= 2 && i%7 == 0 {
 			r.Sample(cs)
 		}
+	}
+	// configuration given as text -> real DisabledSubMetrics -> aggregator and stdout backend (config_test.go)
+	rngT := r.Rand("c08-config-text")
+	for i, nt := 0, r.N(1200, 60000); i < nt; i++ {
+		c.evalText(genTextCase(rngT))
+	}
+	// the real MetricFlusher over real aggregators, windows of different lengths (flusher_test.go)
+	rngF := r.Rand("c08-flusher")
+	for i, nf := 0, r.N(240, 12000); i < nf; i++ {
+		c.runFlusher(genFlusherCase(rngF))
+		if r.Violations() > 40 {
+			break
+		}
+	}
+	// the real cmd/gostatsd binary: flags / environment / file -> constructed server (config_test.go)
+	if binCh != nil {
+		bin := <-binCh
+		binCh = nil
+		c.binaryPhase(t, bin, r.Pick(240, 2400))
 	}
 	if s, _ := r.Shard(); s == 0 {
 		for _, cs := range corpus() {
